@@ -460,18 +460,38 @@ fn run_public(fxp: &PublicFixture, m: usize, findings: &mut Vec<Finding>, probes
     let tpl = (proof_pis(&fxp.template), proof_cap0(&fxp.template));
     let mut commits = 0u64;
     for k in 1..=m {
-        for _ in 0..reps {
-            // a random ordered selection of k distinct inner proofs
-            let mut idx: Vec<usize> = (0..fxp.inners.len()).collect();
-            rng.shuffle(&mut idx);
-            idx.truncate(k);
-            let proofs: Vec<Proof> = idx.iter().map(|i| fxp.inners[*i].clone()).collect();
+        for rep in 0..reps {
+            // a random ordered selection of k inner proofs: distinct ones (must be accepted), and, every
+            // third repetition, drawn WITH replacement and possibly including the padding template itself
+            // (what the property says about order holds for whatever vector commit accepts)
+            let with_repeats = rep % 3 == 2 && k >= 2;
+            let proofs: Vec<Proof> = if with_repeats {
+                let mut v: Vec<Proof> = (0..k).map(|_| if rng.chance(1, 6) { fxp.template.clone() } else { fxp.inners[rng.usize(fxp.inners.len())].clone() }).collect();
+                // make sure something repeats
+                let j = rng.usize(k - 1);
+                v[k - 1] = v[j].clone();
+                v
+            } else {
+                let mut idx: Vec<usize> = (0..fxp.inners.len()).collect();
+                rng.shuffle(&mut idx);
+                idx.truncate(k);
+                idx.iter().map(|i| fxp.inners[*i].clone()).collect()
+            };
             let mut p = prover.take().unwrap();
             let targets = p.verif_targets().expect("armed");
             let mut p2 = match p.commit(PublicBatchInputs { proofs: proofs.clone(), aggregator_address: BytesDigest::try_from([9u8; 32]).unwrap() }) {
                 Ok(x) => x,
+                Err(_) if with_repeats => {
+                    // a vector with repeats may be refused (that is C14's business); rebuild the consumed prover
+                    probes.inc("public_commit_with_repeats_refused");
+                    prover = Some(PublicBatchProver::new(wormhole_public_batch_circuit_config(), pb.common.clone(), &pb.verifier_only, m, 1, fxp.template.clone()).unwrap_or_else(|e| harness_error(&format!("cannot rebuild the public-batch prover for M={m}: {e:#}"))));
+                    continue;
+                }
                 Err(e) => harness_error(&format!("public commit of {k} compatible inner proofs into M={m} failed: {e:#}")),
             };
+            if with_repeats {
+                probes.inc("public_commit_with_repeats_accepted");
+            }
             commits += 1;
             let pw = p2.verif_partial_witness();
             for (i, t) in targets.private_batch_proofs.iter().enumerate() {
@@ -700,7 +720,7 @@ fn main() {
     let mut public_commits = 0u64;
     {
         let leaf = canonical_leaf_verifier_data();
-        let max_m = if quick { 2 } else { 3 };
+        let max_m = 3;
         let inners: Vec<Proof> = std::thread::scope(|s| {
             let hs: Vec<_> = (0..max_m).map(|i| { let fx = &fx; let leaf = &leaf; s.spawn(move || {
                 let p = PrivateBatchProver::new(wormhole_private_batch_circuit_config(), leaf.common.clone(), &leaf.verifier_only, 1, fx.template.clone()).unwrap();
@@ -727,7 +747,7 @@ fn main() {
         let fxp = PublicFixture { inners, template };
         let mut rng = Rng::new(mix(seed, 0x9B));
         for m in 1..=max_m {
-            public_commits += run_public(&fxp, m, &mut findings, &mut probes, &mut rng, if quick { 6 } else { 40 });
+            public_commits += run_public(&fxp, m, &mut findings, &mut probes, &mut rng, if quick { 9 } else { 60 });
         }
     }
 
